@@ -109,21 +109,24 @@ theorem isOpen_of_kindOf {E fs} (hE : EnvOK E fs) {k c} (h : kindOf E k = some (
   simp only [hk]
   cases c <;> decide
 
+/-- the parent slot handed to `populateStep`: nothing, or what the `extends` reference denotes -/
+def ParentDen (rx : String → Bool) (fs : List File) (ns : String) (d : TypeDecl) : Option Ty → Prop
+  | none => d.extends = none
+  | some t' => ∃ r, d.extends = some r ∧ denoteRef rx fs ns r = some t'
+
 theorem structParentOpt_denote {rx E fs ns d pty parent}
-    (hp : match pty with
-          | none => d.extends = none
-          | some t' => ∃ r, d.extends = some r ∧ denoteRef rx fs ns r = some t')
+    (hp : ParentDen rx fs ns d pty)
     (h : structParentOpt E pty = .ok parent) : denoteParent rx fs ns d = some parent := by
   unfold denoteParent
   cases pty with
   | none =>
     simp only [structParentOpt] at h
     cases h
-    simp only at hp
+    simp only [ParentDen] at hp
     rw [hp]
   | some t' =>
     simp only [structParentOpt] at h
-    simp only at hp
+    simp only [ParentDen] at hp
     obtain ⟨r, hr, hd⟩ := hp
     split at h
     · rename_i k hk
@@ -133,9 +136,7 @@ theorem structParentOpt_denote {rx E fs ns d pty parent}
     · cases h
 
 theorem unionParentOpt_denote {rx E fs ns d pty parent} (hE : EnvOK E fs)
-    (hp : match pty with
-          | none => d.extends = none
-          | some t' => ∃ r, d.extends = some r ∧ denoteRef rx fs ns r = some t')
+    (hp : ParentDen rx fs ns d pty)
     (h : unionParentOpt E pty = .ok parent) :
     denoteParent rx fs ns d = some (parent.map (·.1)) ∧
       inheritsOther fs (parent.map (·.1)) = parentIsOpen parent := by
@@ -144,12 +145,12 @@ theorem unionParentOpt_denote {rx E fs ns d pty parent} (hE : EnvOK E fs)
   | none =>
     simp only [unionParentOpt] at h
     cases h
-    simp only at hp
+    simp only [ParentDen] at hp
     rw [hp]
     simp [parentIsOpen, inheritsOther]
   | some t' =>
     simp only [unionParentOpt] at h
-    simp only at hp
+    simp only [ParentDen] at hp
     obtain ⟨r, hr, hd⟩ := hp
     split at h
     · rename_i p hk
@@ -162,9 +163,7 @@ theorem unionParentOpt_denote {rx E fs ns d pty parent} (hE : EnvOK E fs)
 /-- one population step keeps the invariant: the new entry is the image of the declaration -/
 theorem populateStep_inv {rx E fs st1 key d pty st'} (hE : EnvOK E fs) (hI : Inv rx E fs st1)
     (hk : E.items.lookup key = some (.type d))
-    (hp : match pty with
-          | none => d.extends = none
-          | some t' => ∃ r, d.extends = some r ∧ denoteRef rx fs key.1 r = some t')
+    (hp : ParentDen rx fs key.1 d pty)
     (h : populateStep rx E st1 key d pty = .ok st') : Inv rx E fs st' := by
   unfold populateStep at h
   split at h
@@ -222,7 +221,7 @@ theorem populate_inv {rx E fs} (hE : EnvOK E fs) : ∀ (fuel : Nat) {prog st key
     simp only [populate] at h
     split at h
     · rename_i hext
-      exact populateStep_inv hE hI hk (by simpa using hext) h
+      exact populateStep_inv hE hI hk (show ParentDen rx fs key.1 d none from hext) h
     · rename_i r hext
       split at h
       · cases h
@@ -249,6 +248,7 @@ theorem populate_inv {rx E fs} (hE : EnvOK E fs) : ∀ (fuel : Nat) {prog st key
             obtain ⟨t0, hd, ht0⟩ := resolveW_denote hE r ht
             simp only [Bool.false_eq_true, ↓reduceIte] at ht0
             subst ht0
+            show ∃ r, _
             refine ⟨r, hext, ?_⟩
             rw [hd, wrapNull_ok ht']
             simp [nullableMeaning]
